@@ -95,6 +95,94 @@ def extract(E, p):
         out.append((op, oc))
     return out, built
 
+def atomic_program(E, res, meth):
+    """[(op, arg)] the atomic operations RtrMetricsData::<meth> performs on its counter, with the field touched."""
+    body = E.prog.find("src/metrics.rs", "RtrMetricsData", meth)
+    rets = [p for p in E.explore(body, max_visits=2, nomut=[r"."]) if p.kind == "return"]
+    if len(rets) != 1:
+        raise mir.Inconclusive("RtrMetricsData::%s has %d return paths (straight-line counter updates are modelled)" % (meth, len(rets)))
+    prog, field = [], set()
+    for e in rets[0].events:
+        if e.kind != "call" or not re.search(r"Atomic(\w*)::", e.name):
+            continue
+        op = e.name.rsplit("::", 1)[1]
+        tgt = e.args[0].get(()) if e.args else None
+        field.add(repr(tgt.loc[-1]) if isinstance(tgt, mir.Ref) and tgt.loc else repr(tgt))
+        if op in ("fetch_add", "fetch_sub"):
+            v = e.args[1].get(())
+            prog.append((op, v if z3.is_expr(v) else z3.BitVecVal(int(v), 64)))
+        elif op == "load":
+            prog.append((op, e.dest.get(())))
+        elif op == "store":
+            v = e.args[1].get(())
+            if not (z3.is_expr(v) or isinstance(v, int)):
+                raise mir.Inconclusive("RtrMetricsData::%s stores a value the engine cannot express: %r" % (meth, v))
+            prog.append((op, v if z3.is_expr(v) else z3.BitVecVal(int(v), 64)))
+        else:
+            raise mir.Inconclusive("RtrMetricsData::%s uses atomic operation %s (not modelled)" % (meth, op))
+    return prog, field
+
+
+def check_counter(res, E, K=3):
+    """K connections open and close concurrently; inc/dec are the atomic-operation programs extracted from MIR."""
+    inc, f_inc = atomic_program(E, res, "inc_current_connections")
+    dec, f_dec = atomic_program(E, res, "dec_current_connections")
+    res.functions.append("routinator::metrics::RtrMetricsData::{inc,dec}_current_connections (MIR, atomic operations extracted)")
+    show = lambda pr: ["%s(%s)" % (o, z3.simplify(a) if z3.is_expr(a) else a) for o, a in pr]
+    res.extra["counter_programs"] = {"inc": show(inc), "dec": show(dec)}
+    res.samples.append({"counter_programs": res.extra["counter_programs"]})
+    if f_inc != f_dec or len(f_inc) != 1:
+        res.violation("mir:metrics:counter-field", "inc_current_connections and dec_current_connections do not update the same single counter (%s vs %s)" % (sorted(f_inc), sorted(f_dec)),
+                      mprop.write_cex(res, "counter_field", mir.Path(mir.State(), {}, "static"), E, "fields %s / %s" % (sorted(f_inc), sorted(f_dec))))
+        return
+    seq = [((o, j), None) for j, (o, _) in enumerate(inc + dec)]
+    args = [a for _, a in inc + dec]
+    _, nodes = mc.build_automaton([seq])
+    loads = [j for j, (o, _) in enumerate(inc + dec) if o == "load"]
+    init = {"count": z3.BitVecVal(0, 64)}
+    for i in range(K):
+        for j in loads:
+            init["ld%d_%d" % (i, j)] = z3.BitVecVal(0, 64)
+
+    def sem(node, s, i):
+        if node.op[0] == "start":
+            return z3.BoolVal(True), {}, None
+        o, j = node.op
+        a = args[j]
+        up = {}
+        sub = [(args[k], s["ld%d_%d" % (i, k)]) for k in loads if z3.is_expr(args[k])]
+        val = z3.substitute(a, *sub) if (z3.is_expr(a) and sub and o != "load") else a
+        if o == "fetch_add":
+            up["count"] = s["count"] + val
+        elif o == "fetch_sub":
+            up["count"] = s["count"] - val
+        elif o == "load":
+            up["ld%d_%d" % (i, j)] = s["count"]
+        elif o == "store":
+            up["count"] = val
+        return z3.BoolVal(True), up, None
+
+    M = mc.GModel([nodes] * K, init, sem, K * (len(seq) + 1), watch=["count"])
+    alldone = lambda s: z3.And([M.at_end(s, i) for i in range(K)])
+    tr = M.check(lambda s: z3.And(alldone(s), s["count"] != z3.BitVecVal(0, 64)), "counter-not-zero")
+    if tr is not None:
+        d = os.path.join(mprop.VERIF, "replays", res.prop)
+        os.makedirs(d, exist_ok=True)
+        fn = os.path.join(d, "counter-not-zero.schedule.json")
+        with open(fn, "w") as f:
+            json.dump({"property": res.prop, "what": "open-connection count is not zero after every connection closed",
+                       "programs": res.extra["counter_programs"], "schedule": tr}, f, indent=1)
+        res.violation("mc:metrics:counter-not-zero", "%d connections open and close concurrently and the open-connection count does not return to zero "
+                      "(inc = %s, dec = %s)" % (K, show(inc), show(dec)), fn)
+    wit = M.check(lambda s: s["count"] == z3.BitVecVal(K, 64), "counter-witness", final_only=False)
+    if wit is None:
+        res.inconclusive.append("vacuity: no schedule has all %d connections open at once" % K)
+    res.evaluations += M.queries
+    res.solver_time += M.solver_time
+    res.distinct += 2
+    res.bounds.append("%d connections, each inc then dec, every interleaving of the atomic operations of both functions" % K)
+    res.assumptions.append("each std atomic method (fetch_add, fetch_sub, load, store) is one indivisible step; memory-ordering effects on a single location do not matter for the count")
+
 
 def run(res, tier):
     E = mprop.engine(res)
@@ -265,6 +353,7 @@ def run(res, tier):
             res.violation("mir:metrics:%s-closure" % meth, "RtrStream::%s does not call %s" % (meth, want),
                           mprop.write_cex(res, "closure_%s" % meth, mir.Path(mir.State(), {}, "static"), E, "closure body lacks " + want))
     res.distinct += n2
+    check_counter(res, E, 3 if tier == "quick" else 4)
     res.engines.append("MC: z3 BMC (bit-vector) over 3 callers of RtrPerAddrMetrics::get, program extracted from MIR incl. which loaded list feeds the store")
     res.bounds.append("3 concurrent get() calls with addresses drawn from 2 (symbolic), every interleaving of load / search / lock / store / unlock")
     res.assumptions += ["ArcSwap load/store are atomic pointer operations (its lock-free internals are outside); std Mutex",
